@@ -3,7 +3,7 @@ through the grid ends.  Every accepted step of real runs is replayed through the
 (solver update -> _processX -> UpdatePBMEuler) and the budget is evaluated on the logged values."""
 import math
 import numpy as np
-import vlib, kwnruns
+import vlib, kwnruns, kwnfull
 from vlib import Result, enc_list, f2b, Toks, close
 
 PROP = 'C02'
@@ -13,7 +13,7 @@ META = {
     'technique': 'Lean 4 proof (telescoping budget + order lemmas) + trace refinement of real runs against the model',
     'design_ref': 'DESIGN.md section 6, C02',
 }
-LEAN_MODULES = ['KawinV.Props.C02']
+LEAN_MODULES = ['KawinV.Props.C02', 'KawinV.Props.KWNFull']
 RUN_ERRORS = []
 MONITORED = ['RK4 glue: the accepted update uses the corrected face fluxes of the LAST stage evaluation only (observed; the budget theorem covers any face fluxes)']
 ASSUMPTIONS = ['stored distributions are non-negative at the start of a step (proved: trunc_nonneg)']
@@ -216,6 +216,11 @@ def corr(ctx, oracle_only=False):
                 tie = np.any(np.abs(np.asarray(mp) - 1) < 1e-6)
                 if tie: res.near_tie_skipped += 1
                 elif not vlib.all_close(ms, tr, 1e-9, sc): res.disagree('stored PSD (truncation)', case, tr[:5].tolist(), ms[:5])
+    # the COMPOSED step (KWNFull.eulerStep): transport, correction, truncation, extension / re-mesh and the recorded statistics of every
+    # accepted step of real runs must be those of the model given the same entry state and backend answers
+    if not oracle_only:
+        kwnfull.refine_scenarios(ctx, res, PROP, [('alzr-loaded', ctx.n(80, 170)), ('alzr-small-grid', ctx.n(400, 1500))] +
+                                 ([('almgsi-2phase-loaded', 200), ('nicral', 300)] if ctx.thorough else []))
     vlib.finish_guard(res)
     return res
 
